@@ -107,10 +107,14 @@ func (s *Module) FindStates(root util.Uint256, prefix, start []byte, maxNum int)
 // prefix (they are stripped to match the Blockchain's SeekStorage behaviour.
 // The result includes item with the key that equals to the `prefix` (if
 // such item is found in the storage). Traversal process is stopped when `false`
-// is returned from `cont`.
-func (s *Module) SeekStates(root util.Uint256, prefix []byte, cont func(k, v []byte) bool) {
+// is returned from `cont`. An error is returned if the state with the specified
+// root is not available (unknown or removed already).
+func (s *Module) SeekStates(root util.Uint256, prefix []byte, cont func(k, v []byte) bool) error {
 	// Allow accessing old values, it's RO thing.
 	store := mpt.NewTrieStore(root, s.mode&^mpt.ModeGCFlag, storage.NewMemCachedStore(s.Store))
+	if err := store.CheckRoot(); err != nil {
+		return fmt.Errorf("state %s is not available: %w", root.StringLE(), err)
+	}
 
 	// Tiny hack to satisfy TrieStore with the given prefix. This
 	// storage.STStorage prefix is a stub that will be stripped by the
@@ -124,6 +128,7 @@ func (s *Module) SeekStates(root util.Uint256, prefix []byte, cont func(k, v []b
 		// Cut the prefix to match the Blockchain's SeekStorage behaviour.
 		return cont(k[len(key):], v)
 	})
+	return nil
 }
 
 // GetStateProof returns proof of having key in the MPT with the specified root.
